@@ -1184,7 +1184,24 @@ func (x *Unit) applyContract(st *State, b *Block, pc *preparedCall, recvName str
 	}
 	nens := 0
 	for _, cl := range b.ClausesOf("ensures") {
-		x.assume(st, x.specEval(st, cl.Expr, c).T)
+		// a postcondition that talks about the callee's local variables says nothing a caller can use: it is proved in the
+		// callee and not assumed here (assuming less is sound)
+		nerr := len(x.specErrors)
+		g := x.specEval(st, cl.Expr, c).T
+		if len(x.specErrors) > nerr {
+			onlyLocals := false
+			for _, m := range x.specErrors[nerr:] {
+				if strings.Contains(m, "unknown name") {
+					onlyLocals = true
+				}
+			}
+			if onlyLocals {
+				x.specErrors = x.specErrors[:nerr]
+				x.note("postconditions over callee locals are not assumed at call sites: " + b.Key + " " + clauseLabel(cl, nens))
+				continue
+			}
+		}
+		x.assume(st, g)
 		nens++
 	}
 	if nens > 0 && x.dry == 0 && x.inlineDepth == 0 && x.inDefer == 0 {
